@@ -385,14 +385,16 @@ fn amplification(seed: u64, index: u64, ex: &mut Extras) -> Params {
                     let t = r.range(300_000, 1_500_000) + 6 * p.net.delay_us;
                     p.net.rebinds.push((t, 0));
                     p.net.rebinds.sort();
-                    p.clients[0].server_close_at_us = Some(t + r.range(0, 3 * p.net.delay_us + 2_000));
-                    // keep the client talking in small packets around that time
+                    // the client talks in small packets with pauses of a few round trips, so the
+                    // server spends most of the time with its allowance for the new address used up
+                    let gap = p.net.delay_us * r.range(2, 8) + 500;
+                    p.clients[0].server_close_at_us = Some(t + r.range(0, 3 * gap));
                     for s in p.clients[0].streams.iter_mut() {
                         s.fwd.len = s.fwd.len.max(40_000);
                         s.fwd.chunk_lo = 1;
                         s.fwd.chunk_hi = 40;
                         s.fwd.gap_every = 1;
-                        s.fwd.gap_us = p.net.delay_us / 2 + 500;
+                        s.fwd.gap_us = gap;
                     }
                 }
                 1 => {
@@ -522,6 +524,18 @@ pub fn make(profile: &str, seed: u64, index: u64) -> (Params, Extras) {
                     s.fwd.flush = false;
                     s.fwd.end = End::Finish;
                     s.fwd.read = ReadMode::Plain;
+                }
+            }
+            // ECN: routers on the path mark a share of the ECN-capable datagrams
+            {
+                let mut r = Rng::new(seed ^ 0xec4);
+                if r.chance(2, 3) {
+                    if p.net.phases.is_empty() {
+                        p.net.phases.push(Phase::clean(r.range(1_000_000, 6_000_000)));
+                    }
+                    for ph in p.net.phases.iter_mut() {
+                        ph.ce = *r.pick(&[0.0, 0.01, 0.05, 0.2, 0.6]);
+                    }
                 }
             }
             p
@@ -1049,21 +1063,48 @@ pub fn make(profile: &str, seed: u64, index: u64) -> (Params, Extras) {
             }
             p
         }
-        "C12" => gen_general(
-            "C12",
-            seed,
-            &["C12"],
-            GenOpts {
-                max_clients: 2,
-                max_streams: 6,
-                max_len: 300_000,
-                tiny_windows: 1,
-                hostile_app: true,
-                net_intensity: (0, 2),
-                server_streams: true,
-                rtts: 200,
-            },
-        ),
+        "C12" => {
+            let mut p = gen_general(
+                "C12",
+                seed,
+                &["C12"],
+                GenOpts {
+                    max_clients: 2,
+                    max_streams: 6,
+                    max_len: 300_000,
+                    tiny_windows: 1,
+                    hostile_app: true,
+                    net_intensity: (0, 2),
+                    server_streams: true,
+                    rtts: 200,
+                },
+            );
+            if index % 4 == 3 {
+                // writers that are stopped by the stream limit and the connection limit at the
+                // same time, and give up (reset) at some moment while they wait
+                let mut r = Rng::new(seed ^ 0xc12);
+                let rtt = 2 * (p.net.delay_us + p.net.jitter_us) + 1_000;
+                let dw = r.range(2_000, 20_000);
+                p.server.data_window = dw;
+                p.server.bidi_remote_window = dw + r.range(0, 3) * dw / 2;
+                p.server.uni_window = dw + r.range(0, 3) * dw / 2;
+                for c in p.clients.iter_mut() {
+                    for s in c.streams.iter_mut() {
+                        s.fwd.len = s.fwd.len.max(4 * dw + r.range(0, 100_000));
+                        s.fwd.chunk_lo = (dw as usize / 2).max(1);
+                        s.fwd.chunk_hi = 3 * dw as usize;
+                        s.fwd.flush = false;
+                        s.fwd.gap_every = 0;
+                        if r.chance(2, 3) {
+                            s.fwd.end = End::ResetAfter { delay_us: r.range(rtt / 4, 6 * rtt), code: r.range(0, 1000) };
+                        }
+                        // a reader that lets the windows fill up
+                        s.fwd.read = ReadMode::Slow { every: 1, us: r.range(rtt / 2, 3 * rtt) };
+                    }
+                }
+            }
+            p
+        }
         other => panic!("unknown profile {other}"),
     };
     let mut p = p;
